@@ -77,7 +77,15 @@ def gen_params(rng, tier):
                 continue
             # the index among all centres: nearest centre overall (x lies between a and b, or is a or b itself)
             cx.append([x, cs.index(b) if exact_upper else cs.index(a)])
-    return {"spec": spec, "stream": stream, "perm_seed": rng.randint(0, 10**9), "edge": {"n": n, "low": low, "high": high, "xs": xs[:12]},
+    unsorted = False
+    stacks = [b for b in gen.walk(spec) if b["k"] == "Stack" and len(b["edges"]) > 1]
+    if stacks and rng.random() < 0.35:
+        # the constructor neither sorts nor rejects thresholds given out of order; each level counts the values at or above
+        # its own threshold.  Outside the model's well-formed trees: compared with the reference evaluation only.
+        for b in stacks:
+            b["edges"] = list(reversed(b["edges"]))
+        unsorted = True
+    return {"spec": spec, "stream": stream, "unsorted": unsorted, "perm_seed": rng.randint(0, 10**9), "edge": {"n": n, "low": low, "high": high, "xs": xs[:12]},
             "sparse_edge": {"w": w, "o": o, "xs": sx[:12]}, "central_mid": {"cs": cs, "xs": cx[:14]}}
 
 
@@ -118,6 +126,8 @@ def build(p):
         ops.append(("mcheck", [name, "zf"], True))
     for dw in stream:
         ops.append(("mcheck", ["goodrun", "zf", [dw]], True))
+    if p.get("unsorted"):
+        ops = [(("snap", "_skipped", "a") if (o[0] == "denote" or (o[0] == "mcheck" and o[1][0] in ("good", "goodrun"))) else o) for o in ops]
     return {"ops": ops, "expect": expect, "spec": spec, "stream": stream}
 
 
